@@ -82,10 +82,12 @@ void BitSequenceRRR::build(const uint *bitseq, size_t len, uint sample_rate) {
   for (uint i = 0; i < C_len; i++) {
     uint value = (ushort)get_var_field(
         bitseq, i * BLOCK_SIZE, min((uint)len - 1, (i + 1) * BLOCK_SIZE - 1));
-    set_var_field(O, O_pos,
-                  O_pos + E->get_log2binomial(BLOCK_SIZE, popcount(value)) - 1,
-                  E->compute_offset((ushort)value));
-    O_pos += E->get_log2binomial(BLOCK_SIZE, popcount(value));
+    uint O_bits = E->get_log2binomial(BLOCK_SIZE, popcount(value));
+    // (blocks of all zeroes or all ones have no offset to store)
+    if (O_bits > 0)
+      set_var_field(O, O_pos, O_pos + O_bits - 1,
+                    E->compute_offset((ushort)value));
+    O_pos += O_bits;
   }
   C_sampling = NULL;
   this->O_pos = NULL;
@@ -171,7 +173,9 @@ size_t BitSequenceRRR::rank1(size_t i) const {
   uint nearest_sampled_value = i / BLOCK_SIZE / sample_rate;
   uint sum =
       get_field(C_sampling, C_sampling_field_bits, nearest_sampled_value);
-  uint pos_O = get_field(O_pos, O_pos_field_bits, nearest_sampled_value);
+  // (size_t, as in access: an empty offset range starting at 0 must be seen
+  // as empty by get_var_field)
+  size_t pos_O = get_field(O_pos, O_pos_field_bits, nearest_sampled_value);
   uint pos = i / BLOCK_SIZE;
   uint k = nearest_sampled_value * sample_rate;
   if (k % 2 == 1 && k < pos) {
